@@ -131,4 +131,45 @@ def PadInjective (n : Nat) (keys : List Bytes) (probe : Bytes) : Prop :=
 instance (n : Nat) (keys : List Bytes) (probe : Bytes) : Decidable (PadInjective n keys probe) := by
   unfold PadInjective; exact inferInstance
 
+/-! ## evaluation helpers for the concrete counterexample theorems -/
+
+instance (c : Compression) (r : GoBytes) : Decidable (FitsRec c r) := by
+  cases r <;> unfold FitsRec <;> exact inferInstance
+
+
+deriving instance DecidableEq for Except
+
+instance instDecEqScanRes : DecidableEq ScanRes := fun a b => instDecidableEqProd a b
+
+/-- no compression, byte-wise comparator -/
+def plainCfg : SstCfg := { cmp := bytesCmp, dc := none, dct := 0, ic := none, ict := 0 }
+
+def plainComps : Nat → Compression := fun _ => none
+
+/-- `Get(key)` on `open (write kvs)` with the given loader, default options, no bloom filter file -/
+def probeGet (k : LoaderKind) (kvs : List KV) (key : Bytes) : Option (Except Err GoBytes) :=
+  match openTable plainComps k {} (writeTable plainCfg kvs) none with
+  | .ok (r, idx) => (r.get idx key).2
+  | .error e => some (.error e)
+
+def probeRange (k : LoaderKind) (kvs : List KV) (lo hi : Bytes) : Except Err ScanRes :=
+  match openTable plainComps k {} (writeTable plainCfg kvs) none with
+  | .ok (r, idx) => (r.scanRange idx lo hi).2
+  | .error e => .error e
+
+def probeScan (k : LoaderKind) (kvs : List KV) : Except Err ScanRes :=
+  match openTable plainComps k {} (writeTable plainCfg kvs) none with
+  | .ok (r, idx) => r.scan plainComps idx
+  | .error e => .error e
+
+/-- `Get`s in a row on the same reader (the disk loader's offset cache is threaded) -/
+def getsOn (r : Reader) : Index → List Bytes → List (Option (Except Err GoBytes))
+  | _, [] => []
+  | idx, k :: ks => (r.get idx k).2 :: getsOn r (r.get idx k).1 ks
+
+def probeGets (k : LoaderKind) (kvs : List KV) (keys : List Bytes) : List (Option (Except Err GoBytes)) :=
+  match openTable plainComps k {} (writeTable plainCfg kvs) none with
+  | .ok (r, idx) => getsOn r idx keys
+  | .error e => [some (.error e)]
+
 end SST
